@@ -209,7 +209,7 @@ def main(tier):
         run.nontrivial.add((m.get("op", m.get("kind")), m.get("kinds"), st, pbyid[i1]["meta"]["mode"]))
     # tails: code after a false-guard region behaves as if the region had not been there
     tp = tail_programs(b)
-    tt = {t["id"]: t for t in common.run_programs(cfg, tp)}
+    tt = {t["id"]: t for t in common.run_programs(cfg, tp, fresh=True)}
     for p in tp:
         if p["meta"]["variant"] != "G":
             continue
